@@ -100,7 +100,7 @@ type c15Mode struct {
 
 func init() {
 	n := uint64(len(c15Catalogue) + c15Random)
-	register(&Prop{ID: "C15", N: n, Quick: 36, Exhaustive: true, StallSec: 600,
+	register(&Prop{ID: "C15", N: n, Quick: int(n), Exhaustive: true, StallSec: 600,
 		Assume: []string{"stdlib regexp.MatchString(`^(?:c)$`, s) is the membership reference", "each class is compiled by nfa.NewCompiler in the default, UseRuneStates and ASCIIOnly modes and simulated by an anchored PikeVM, and end-to-end through coregex.MatchString"},
 		Rule:   "case = one class/literal/dot expression c from the catalogue (every Unicode script and category and its negation, Perl/POSIX classes, boundary-straddling ranges, fold-case literals) or a generated union; for each c ALL 1,114,112 code points (surrogates as their 3-byte ill-formed encodings) and all byte strings of length <= 2 (thorough: <= 3 for a sub-sample) are enumerated; one evaluation = one (mode, string) membership comparison; distinct_nontrivial = distinct (class, string) pairs where the reference says member, or the string is ill-formed, or it is a one-off neighbour of a range boundary",
 		Known:  knownC15,
@@ -169,11 +169,22 @@ func runC15(w *W, i uint64) {
 	evals, members, nontriv := 0, 0, 0
 	sample := true
 	prevWant := false
+	light := w.tier == "quick" // quick tier: every class of the universe on a boundary-driven sample of the code points
+	curR, afterChange := rune(0), 0
 	check := func(b []byte, valid bool) {
 		want := std.Match(b)
 		// the dot-only modes are re-run where membership changes (range boundaries) and on a stride
 		sample = want != prevWant || len(b) <= 1 || (len(b) > 0 && b[len(b)-1]%32 == 0) || !valid
+		changed := want != prevWant
 		prevWant = want
+		if light && valid && len(b) > 1 && !(changed || afterChange > 0 || curR < 0x1000 || curR%127 == 0 || nearUTF8Edge(curR)) {
+			return // quick tier: engines run at membership changes (and the 2 code points after), below U+1000, on a stride of 127 and at encoding-length edges
+		}
+		if changed {
+			afterChange = 2
+		} else if afterChange > 0 {
+			afterChange--
+		}
 		if want {
 			members++
 		}
@@ -216,6 +227,7 @@ func runC15(w *W, i uint64) {
 	}
 	var buf [4]byte
 	for r := rune(0); r <= 0x10ffff; r++ {
+		curR = r
 		if r >= 0xd800 && r <= 0xdfff {
 			// ill-formed 3-byte encoding of a surrogate
 			buf[0] = 0xed
@@ -227,7 +239,11 @@ func runC15(w *W, i uint64) {
 		n := utf8.EncodeRune(buf[:], r)
 		check(buf[:n], true)
 	}
-	w.Count("event:code-points-enumerated", 0x110000)
+	if light {
+		w.Count("event:code-points-enumerated(reference)/boundary-sampled(engines)", 0x110000)
+	} else {
+		w.Count("event:code-points-enumerated", 0x110000)
+	}
 	// byte strings of length <= 2 (all), length 3 in the thorough tier for every 8th class
 	check(nil, true)
 	for a := 0; a < 256; a++ {
@@ -269,4 +285,14 @@ func runC15(w *W, i uint64) {
 		fmt.Sscanf(k, "%s\t%s", &kind, &mode)
 		w.Fail(Failure{Idx: i, Sub: kind, API: mode, Got: fmt.Sprintf("%d strings differ; first: %s", a.n, a.first), Want: "0 differ", Pattern: pat})
 	}
+}
+
+// nearUTF8Edge: code points next to a change of the encoded length or of the lead byte class.
+func nearUTF8Edge(r rune) bool {
+	for _, e := range []rune{0x7f, 0x80, 0x7ff, 0x800, 0xfff, 0x1000, 0xcfff, 0xd000, 0xd7ff, 0xe000, 0xffff, 0x10000, 0x3ffff, 0x40000, 0xfffff, 0x100000, 0x10ffff} {
+		if r >= e-2 && r <= e+2 {
+			return true
+		}
+	}
+	return false
 }
